@@ -236,18 +236,6 @@ Theorem C01_token_guarantee_regex_check_pattern : forall re_ok re_match h f s sr
 Proof. exact token_guarantee_regex_check_pattern. Qed.
 Print Assumptions C01_token_guarantee_regex_check_pattern.
 
-(* NEW FINDING (backslash in a regex-type pattern): the regex text of `foo\dbar^` contains the digit
-   class \d (so the crate's matcher accepts https://x.com/foo5bar/), the token semantics of the text
-   rejects that URL (re_std fails), and the rule's only index token "dbar" is not a token of the URL *)
-Theorem C01_regex_backslash_witness :
-  exists s u t,
-    C02_Model.no_backslash s = false /\
-    C02_Model.translate s false false = bs "foo\dbar(?:[^\w\d\._%-]|$)" /\
-    C02_Model.search false false (C02_Model.toks s) u = false /\
-    tokenize_filter s true true = [t] /\ ~ In t (tokenize u).
-Proof. exact regex_backslash_witness. Qed.
-Print Assumptions C01_regex_backslash_witness.
-
 (* TG is a theorem for lists whose matching rules are plain or regex-type *)
 Theorem C01_TG_plain_or_regex_list : forall h matches src url L,
   within_cutoff false false url -> all_ascii url = true -> ~ In STAR url ->
@@ -367,3 +355,174 @@ Theorem C01_src_query_kinds :
      ("removeparam_filters", "check_all")]%string.
 Proof. exact query_kinds_are_model. Qed.
 Print Assumptions C01_src_query_kinds.
+
+(* ------------------------------------------------------------------ the token guarantee extended
+   (Tok_Ext_Model.v / Tok_Ext_Proofs.v) to rules whose token group is any combination of
+   plain-pattern tokens (with or without hostname anchor: /path, ||host/path, ||host/path|),
+   hostname tokens, the single domain of $domain=d, and the http / https scheme token.
+   To merge: append this block to Props_C01.v (it needs the imports already made there for the
+   Tok_Proofs / Tok_Host_Proofs blocks, plus the three lines below).
+   Premises that remain, each an explicit hypothesis:
+     - rq_src r <> None for rules stored by their domain option      (finding F2, *_no_source_refuted)
+     - the request is http or https for scheme-restricted rules       (finding F3, *_ws_refuted)
+     - scheme_tie: is_http / is_https describe the URL's prefix       (C12; false only for a
+       scheme-less URL through Request::preparsed, *_tie_needed_refuted)
+     - host_at / host_in_url: the hostname is where C12 puts it in the URL, between delimiters,
+       and is its own first occurrence after "://" and the credentials
+     - within_cutoff: URL, pattern and hostname below the 127-token cut-off
+     - no_param_fallback: the $removeparam parameter-name fallback is not the rule's group
+     - regex / complete-regex / AnyOf patterns are outside pat_hit (their matcher is not modelled
+       here); rules of those kinds are covered only when they have no tokenized pattern. *)
+From Adb Require Import Tok_Ext_Model Tok_Ext_Proofs.
+From Adb Require C02_Model C03_Model.
+
+(* get_tokens is the four parts, the $removeparam fallback and the per-domain dispatch *)
+Theorem C01_get_tokens_parts : forall h f,
+  get_tokens h f =
+  let toks := base_tokens h f in
+  let toks := if nullb toks && is_removeparam f then
+                match rmod f with
+                | Some p => if valid_param p then map h (tokenize (lower_str p)) else []
+                | None => []
+                end
+              else toks in
+  match nullb toks, rdomains f, rnotdomains f with
+  | true, Some ds, None => map (fun d => [d]) ds
+  | _, _, _ => [toks ++ tok_scheme h f]
+  end.
+Proof. exact get_tokens_parts. Qed.
+Print Assumptions C01_get_tokens_parts.
+
+(* the non-regex paths of C02's check_pattern are the matchers used below *)
+Theorem C01_check_pattern_plain : forall re_ok re_match sh s hostname r,
+  C02_Model.s_hn sh = false -> C02_Model.s_rx sh = false -> C02_Model.s_cr sh = false ->
+  C02_Model.check_pattern_sh re_ok re_match sh [s] hostname r
+  = plain_match (C02_Model.s_la sh) (C02_Model.s_ra sh) s (C02_Model.get_url r (C02_Model.s_mc sh)).
+Proof. exact check_pattern_plain. Qed.
+Print Assumptions C01_check_pattern_plain.
+
+Theorem C01_check_pattern_hostpat : forall re_ok re_match sh s hn r,
+  C02_Model.s_hn sh = true -> C02_Model.s_rx sh = false ->
+  C02_Model.check_pattern_sh re_ok re_match sh [s] (Some hn) r
+  = hostpat_match (C02_Model.s_la sh) (C02_Model.s_ra sh) (C02_Model.s_wild sh) hn s
+      (C02_Model.get_url r (C02_Model.s_mc sh)) (C02_Model.r_host r).
+Proof. exact check_pattern_hostpat. Qed.
+Print Assumptions C01_check_pattern_hostpat.
+
+Theorem C01_check_pattern_host_only : forall re_ok re_match sh hn r,
+  C02_Model.s_hn sh = true -> C02_Model.s_rx sh = false ->
+  C02_Model.check_pattern_sh re_ok re_match sh [] (Some hn) r = true ->
+  exists e k, C02_Model.anchored_hostname_end hn (C02_Model.r_host r) (C02_Model.s_wild sh) e = Some k.
+Proof. exact check_pattern_host_only. Qed.
+Print Assumptions C01_check_pattern_host_only.
+
+(* (1) ||host + plain pattern.  A kept first token (skip_first off = left anchor) is safe when the
+   occurrence starts the URL or the pattern starts with a non-token byte; after an anchored host
+   the pattern starts where the URL's host ends, i.e. at a delimiter. *)
+Theorem C01_occurrence_tokens_covered_gen : forall sf sl s pre post t,
+  (sf = false -> pre = [] \/ head_blocked s) -> (sl = false -> post = []) ->
+  In t (tku sf sl s 0 None None) -> In t (tku false false (pre ++ s ++ post) 0 None None).
+Proof. exact occurrence_tokens_covered_gen. Qed.
+Print Assumptions C01_occurrence_tokens_covered_gen.
+
+Theorem C01_hostpat_pattern_tokens_covered : forall la ra w hn s url host t,
+  hn <> [] -> hostpat_match la ra w hn s url host = true -> host_at url host ->
+  In t (tku (negb la) (negb ra) s 0 None None) -> In t (tku false false url 0 None None).
+Proof. exact hostpat_pattern_tokens_covered. Qed.
+Print Assumptions C01_hostpat_pattern_tokens_covered.
+
+Theorem C01_anchored_host_tokens_covered : forall hn host e k url t,
+  hn <> [] -> C02_Model.anchored_hostname_end hn host false e = Some k -> host_in_url url host ->
+  In t (tku false false hn 0 None None) -> In t (tku false false url 0 None None).
+Proof. exact anchored_host_tokens_covered. Qed.
+Print Assumptions C01_anchored_host_tokens_covered.
+
+(* (2) the single-domain token: contract of the option check, no hypothesis besides the check *)
+Theorem C01_domain_token_probed : forall h d odu hs url,
+  C03_Model.included_rejects (Some [d]) odu (Some hs) = false -> In d (probes h (Some hs) url).
+Proof. exact domain_token_probed. Qed.
+Print Assumptions C01_domain_token_probed.
+
+Theorem C01_check_options_domain_probed : forall h m d odu ond ondu r url,
+  C03_Model.check_options m (Some [d]) odu ond ondu r = true -> C03_Model.rq_src r <> None ->
+  In d (probes h (C03_Model.rq_src r) url).
+Proof. exact check_options_domain_probed. Qed.
+Print Assumptions C01_check_options_domain_probed.
+
+(* F2: the premise rq_src r <> None cannot be dropped *)
+Theorem C01_domain_token_no_source_refuted :
+  exists (h : str -> N) m d r url,
+    C03_Model.check_options m (Some [d]) None None None r = true /\ C03_Model.rq_src r = None /\
+    ~ In d (probes h (C03_Model.rq_src r) url).
+Proof. exact domain_token_no_source_refuted. Qed.
+Print Assumptions C01_domain_token_no_source_refuted.
+
+(* (3) the scheme token *)
+Theorem C01_scheme_token_http : forall url,
+  prefixb (bs "http:") url = true -> In (bs "http") (tku false false url 0 None None).
+Proof. exact scheme_token_http. Qed.
+Print Assumptions C01_scheme_token_http.
+
+Theorem C01_scheme_token_https : forall url,
+  prefixb (bs "https:") url = true -> In (bs "https") (tku false false url 0 None None).
+Proof. exact scheme_token_https. Qed.
+Print Assumptions C01_scheme_token_https.
+
+Theorem C01_scheme_token_probed : forall h f r url,
+  C03_Model.scheme_ok (rmask f) r = true ->
+  C03_Model.rq_http r || C03_Model.rq_https r = true -> scheme_tie r url ->
+  within_cutoff false false url ->
+  incl (tok_scheme h f) (probes h (C03_Model.rq_src r) url).
+Proof. exact scheme_token_probed. Qed.
+Print Assumptions C01_scheme_token_probed.
+
+(* F3: the premise "http or https request" cannot be dropped *)
+Theorem C01_scheme_token_ws_refuted :
+  exists m r url, C03_Model.for_http m = true /\ C03_Model.for_https m = false /\
+    C03_Model.scheme_ok m r = true /\ C03_Model.rq_http r || C03_Model.rq_https r = false /\
+    ~ In (bs "http") (tokenize url).
+Proof. exact scheme_token_ws_refuted. Qed.
+Print Assumptions C01_scheme_token_ws_refuted.
+
+(* nor can scheme_tie: a scheme-less URL through Request::preparsed counts as https *)
+Theorem C01_scheme_tie_needed_refuted :
+  exists m r url, C03_Model.for_https m = true /\ C03_Model.for_http m = false /\
+    C03_Model.scheme_ok m r = true /\ C03_Model.rq_https r = true /\ ~ scheme_tie r url /\
+    ~ In (bs "https") (tokenize url).
+Proof. exact scheme_tie_needed_refuted. Qed.
+Print Assumptions C01_scheme_tie_needed_refuted.
+
+(* (4) the combined token guarantee *)
+Theorem C01_token_guarantee_ext : forall h f r odu ondu url host,
+  no_param_fallback h f = true ->
+  C03_Model.check_options (rmask f) (rdomains f) odu (rnotdomains f) ondu r = true ->
+  (needs_source f = true -> C03_Model.rq_src r <> None) ->
+  (scheme_restricted f = true -> C03_Model.rq_http r || C03_Model.rq_https r = true) ->
+  scheme_tie r url ->
+  pat_hit f url host ->
+  within_cutoff false false url ->
+  covered h (probes h (C03_Model.rq_src r) url) f.
+Proof. exact token_guarantee_ext. Qed.
+Print Assumptions C01_token_guarantee_ext.
+
+Theorem C01_TG_ext_list : forall h matches r url host L,
+  within_cutoff false false url -> web_request r url -> ext_hits h matches r url host L ->
+  TG h matches (probes h (C03_Model.rq_src r) url) L.
+Proof. exact TG_ext_list. Qed.
+Print Assumptions C01_TG_ext_list.
+
+(* engine = rule-by-rule with NO token-guarantee premise, for lists whose matching rules are in
+   the extended class *)
+Theorem C01_engine_eq_rule_by_rule_ext : forall h matches r url host L T,
+  id_inj L -> within_cutoff false false url -> web_request r url -> ext_hits h matches r url host L ->
+  blocker_check matches (probes h (C03_Model.rq_src r) url) (tags_with_set h (blocker_new h L) T)
+  = spec_verdict matches L T.
+Proof. exact engine_eq_spec_ext. Qed.
+Print Assumptions C01_engine_eq_rule_by_rule_ext.
+
+Theorem C01_engine_eq_rule_by_rule_subset_ext : forall h matches r url host mr fc L T,
+  id_inj L -> within_cutoff false false url -> web_request r url -> ext_hits h matches r url host L ->
+  blocker_check_p matches (probes h (C03_Model.rq_src r) url) mr fc (tags_with_set h (blocker_new h L) T)
+  = spec_verdict_p matches mr fc L T.
+Proof. exact engine_eq_spec_p_ext. Qed.
+Print Assumptions C01_engine_eq_rule_by_rule_subset_ext.
